@@ -13,6 +13,8 @@ pub fn generate(r: &mut Rng, tier: Tier) -> Scenario {
         g.duplicate_label = false;
         g.noreturn_fn = false;
         g.recursion = g.recursion || g.n_funcs > 2;
+        // loops in code that nothing leads into are where a sweep loop oscillates first
+        g.code_after_exit = g.code_after_exit || g.body_items % 2 == 0;
         if c.includes > 2 {
             c.includes = 2;
         }
@@ -144,6 +146,48 @@ pub fn check(scn: &Scenario, stats: &mut Stats) -> Vec<Violation> {
                         return out;
                     }
                 }
+            }
+            // (5) the facts satisfy the analyses' own equations on the finished graph: what a node
+            // assumes on entry (a register or stack slot holding a constant or an original value)
+            // holds on exit of every predecessor, and what is live after a node is what is live
+            // before its successors. A sweep loop that stops early leaves facts that a further run
+            // of the same loop reproduces faithfully, so (1) alone does not see it.
+            for (i, nd) in base.nodes.iter().enumerate() {
+                for (fin, fout, what) in [(0usize, 1usize, "reg_values"), (2, 3, "memory_values")] {
+                    for item in nd.facts[fin].split(';').filter(|x| x.contains("=Constant(") || x.contains("=OriginalRegisterWithScalar(")) {
+                        for &p in &nd.prevs {
+                            if p == crate::snapshot::NONE || base.nodes[p].facts[fout].split(';').any(|y| y == item) {
+                                continue;
+                            }
+                            out.push(viol(
+                                "facts-satisfy-the-equations",
+                                format!("equation-violated:{what}_in-not-implied-by-predecessor"),
+                                format!("node {i} `{}` ({}:{}) assumes {item} on entry, but its predecessor node {p} `{}` ({}:{}) leaves {} = [{}]", nd.text, nd.file, nd.line + 1, base.nodes[p].text, base.nodes[p].file, base.nodes[p].line + 1, crate::snapshot::FACT_NAMES[fout], base.nodes[p].facts[fout]),
+                                &feats,
+                            ));
+                            return out;
+                        }
+                    }
+                }
+                // live_out[n] = union of live_in[s] over the successors
+                let set = |t: &str| -> std::collections::BTreeSet<String> { t.trim_matches(|c| c == '[' || c == ']').split(", ").filter(|x| !x.is_empty()).map(str::to_string).collect() };
+                let live_out = set(&nd.facts[5]);
+                let mut want = std::collections::BTreeSet::new();
+                for &t in &nd.nexts {
+                    if t != crate::snapshot::NONE {
+                        want.extend(set(&base.nodes[t].facts[4]));
+                    }
+                }
+                if live_out != want {
+                    out.push(viol(
+                        "facts-satisfy-the-equations",
+                        "equation-violated:live_out-is-not-the-union-of-successors-live_in".into(),
+                        format!("node {i} `{}` ({}:{}): live_out = {:?}, union of live_in over its successors {:?} = {:?}", nd.text, nd.file, nd.line + 1, live_out, nd.nexts, want),
+                        &feats,
+                    ));
+                    return out;
+                }
+                stats.inc("equations_checked_nodes");
             }
             if stats.samples.len() < 3 {
                 stats.samples.push(serde_json::json!({
